@@ -15,6 +15,7 @@ BIG = Fraction(10**12)  # stands for +inf in the real model (inputs are assumed 
 INT_MIN = -(2**31)
 
 _fresh_counter = itertools.count()
+NAN = z3.Real("NaN_garbage")
 
 
 def fresh(prefix, sort):
@@ -83,9 +84,8 @@ class RealAlg:
             if math.isinf(v):
                 return BIG if v > 0 else -BIG
             if math.isnan(v):
-                s = fresh("nan", z3.RealSort())
-                self.nan_syms.append(s)
-                return s
+                # one global unconstrained symbol: NaN garbage is "some value", the same in every evaluation
+                return NAN
             return Fraction(v)  # exact binary value
         raise NotImplementedError(kind)
 
